@@ -517,9 +517,7 @@ def gen_special(L, K, rng, nsteps):
                 dv, sv = g.slots[d], g.slots[src]
                 v = sv.clone()
                 v.aid = sv.aid if K[0] else dv.aid
-                # the block is reused when large enough
-                if not dv.null and dv.block >= sv.block and not (K[0] and not K[3] and dv.aid != sv.aid):
-                    v.block = dv.block
+                # copy assignment always allocates a block of the source's size (allocate first, then destroy)
                 v.null = False
                 g.slots[d] = v
                 g.moved[d] = False
